@@ -1,0 +1,56 @@
+//go:build verif
+
+// Contracts for the verifier in /verif (comment-only file; contributes no declarations).
+package runner
+
+// C13, selection: which endpoint policies a request gets. The URL trie is trusted through the abstract model declared in
+// package config (pdecl: declared patterns, pval: stored value per pattern, best: the pattern the trie picks for a URL).
+//@ extern URLTree.Lookup
+//@   modifies nothing
+//@   ensures[none] best(pdecl, url) == "" ==> result.Value == nil
+//@   ensures[the-matched-node] best(pdecl, url) != "" ==> result.Value == pval[best(pdecl, url)]
+
+// positions: asrc[r] is the index in `source` of the r-th element of the result; apos[i] the position in the result of
+// the i-th element of `source` (ghost witnesses)
+//@ ghost var asrc gmap[int]int
+//@ ghost var apos gmap[int]int
+
+//@ func appendEndpointRemedies
+//@   prop C13
+//@   modifies asrc, apos
+//@   loop 1 modifies asrc, apos
+//@   loop 1 do asrc[len(target) - 1] = ite(source[idx1-1].Enabled, idx1 - 1, asrc[len(target) - 1]); apos[idx1-1] = len(target) - 1
+//@   loop 1 invariant[kept] len(target) >= old(len(target)) && forall(r, 0, old(len(target)), target[r] == old(target)[r])
+//@   loop 1 invariant[only-enabled-of-this-endpoint] forall(r, old(len(target)), len(target), target[r].Scope == utils.ScopeEndpoint && target[r].Method == method && target[r].NormalizedURL == normalizedURL && target[r].PathParams == pathParams && 0 <= asrc[r] && asrc[r] < idx1 && source[asrc[r]].Enabled && target[r].Remedy == &source[asrc[r]])
+//@   loop 1 invariant[every-enabled] forall(i, 0, idx1, source[i].Enabled ==> old(len(target)) <= apos[i] && apos[i] < len(target) && target[apos[i]].Remedy == &source[i])
+//@   ensures[kept] len(result) >= len(target) && forall(r, 0, len(target), result[r] == target[r])
+//@   ensures[only-enabled-of-this-endpoint] forall(r, len(target), len(result), result[r].Scope == utils.ScopeEndpoint && result[r].Method == method && result[r].NormalizedURL == normalizedURL && result[r].PathParams == pathParams && 0 <= asrc[r] && asrc[r] < len(source) && source[asrc[r]].Enabled && result[r].Remedy == &source[asrc[r]])
+//@   ensures[every-enabled] forall(i, 0, len(source), source[i].Enabled ==> len(target) <= apos[i] && apos[i] < len(result) && result[apos[i]].Remedy == &source[i])
+
+//@ func appendGlobalRemedies
+//@   prop C13
+//@   modifies nothing
+//@   loop 1 modifies nothing
+//@   loop 1 invariant[kept] len(target) >= old(len(target)) && forall(r, 0, old(len(target)), target[r] == old(target)[r])
+//@   loop 1 invariant[global-scope] forall(r, old(len(target)), len(target), target[r].Scope == utils.ScopeGlobal)
+//@   ensures[kept] len(result) >= len(target) && forall(r, 0, len(target), result[r] == target[r])
+//@   ensures[global-scope] forall(r, len(target), len(result), result[r].Scope == utils.ScopeGlobal)
+
+// A remedy declared for an endpoint is applied to a request only if the request's method is the declared one and the
+// pattern it was declared on is the pattern the trie matched for the request's URL.
+//@ func getRemedies
+//@   prop C13
+//@   requires policyTree != nil && globalPolicies != nil && polValues() && polOwn()
+//@   modifies asrc, apos
+//@   ensures[endpoint-remedies-only-for-declared-method-and-pattern] forall(r, 0, len(result), result[r].Scope == utils.ScopeEndpoint ==> best(pdecl, url) != "" && in(urltree.Method(methodStr), *pval[best(pdecl, url)]) && (*pval[best(pdecl, url)])[urltree.Method(methodStr)].URL == best(pdecl, url) && result[r].Method == methodStr && exists(i, 0, len((*pval[best(pdecl, url)])[urltree.Method(methodStr)].Remedies), (*pval[best(pdecl, url)])[urltree.Method(methodStr)].Remedies[i].Enabled && result[r].Remedy == &(*pval[best(pdecl, url)])[urltree.Method(methodStr)].Remedies[i]))
+//@   ensures[every-enabled-endpoint-remedy] best(pdecl, url) != "" && in(urltree.Method(methodStr), *pval[best(pdecl, url)]) ==> forall(i, 0, len((*pval[best(pdecl, url)])[urltree.Method(methodStr)].Remedies), (*pval[best(pdecl, url)])[urltree.Method(methodStr)].Remedies[i].Enabled ==> exists(r, 0, len(result), result[r].Remedy == &(*pval[best(pdecl, url)])[urltree.Method(methodStr)].Remedies[i]))
+
+//@ func shouldDiagnose
+//@   prop C13
+//@   requires policyTree != nil && globalPolicies != nil && polValues() && polOwn()
+//@   modifies nothing
+//@   loop 1 modifies nothing
+//@   loop 1 invariant[no-global-yet] forall(i, 0, idx1, !globalPolicies.Diagnosis[i].Enabled)
+//@   loop 2 modifies nothing
+//@   loop 2 invariant[none-yet] forall(i, 0, idx2, !policy.Diagnosis[i].Enabled)
+//@   ensures[only-when-declared] result ==> exists(i, 0, len(globalPolicies.Diagnosis), globalPolicies.Diagnosis[i].Enabled) || (best(pdecl, url) != "" && in(urltree.Method(methodStr), *pval[best(pdecl, url)]) && exists(i, 0, len((*pval[best(pdecl, url)])[urltree.Method(methodStr)].Diagnosis), (*pval[best(pdecl, url)])[urltree.Method(methodStr)].Diagnosis[i].Enabled))
